@@ -62,7 +62,7 @@ def _(M, a, c):
 @model_re(r'^<Option<.*> as Clone>::clone$')
 def _(M, a, c): return ms.m_opt_clone(M, a, c)
 @model('<String as Clone>::clone')
-def _(M, a, c): return Native('String', b=list(V(a[0]).d['b']))
+def _(M, a, c): return Native('String', b=list(as_slice(deref_all(a[0])).items()))
 @model_re(r'^<Arc<.*> as Clone>::clone$')
 def _(M, a, c): return V(a[0])       # same heap identity
 @model_re(r'^<Arc<.*> as Deref>::deref$')
@@ -92,6 +92,7 @@ def skey(s):
         if k0.sym(): raise Unsupported("symbolic integer map key")
         return ('int', k0.v)
     if isinstance(k0, bool): return ('bool', k0)
+    if isinstance(k0, Agg): return ('agg', k0.ty, k0.variant, tuple(skey(f) for f in k0.fields))
     s = as_slice(s)
     if isinstance(s, Ref): s = as_slice(s.load())
     bs = s.items()
@@ -572,7 +573,7 @@ def _(M, a, c): V(a[0]).d['b'].extend(as_slice(a[1]).items()); return UNIT
 @model('String::new')
 def _(M, a, c): return Native('String', b=[])
 @model('String::is_empty')
-def _(M, a, c): return len(V(a[0]).d['b']) == 0
+def _(M, a, c): return len(as_slice(deref_all(a[0])).items()) == 0
 @model('String::into_bytes')
 def _(M, a, c): return Native('Vec', b=a[0].d['b'])
 def utf8_valid_formula(bs):
@@ -740,7 +741,11 @@ def _(M, a, c): return a[0].fields[0] if a[0].variant == 1 else a[1]
 # ---- maps
 def sorted_items(m):
     # Ord of the key type: byte strings lexicographically, integers numerically, bools false < true
-    return [m[k] for k in sorted(m, key=lambda k: (0, k) if isinstance(k, bytes) else (1, k[1]) if isinstance(k, tuple) and k[0] in ('int', 'bool') else (2, repr(k)))]
+    return [m[k] for k in sorted(m, key=lambda k: (0, k) if isinstance(k, bytes) else (1, k[1]) if isinstance(k, tuple) and k[0] in ('int', 'bool') else _agg_order(k) if isinstance(k, tuple) and k[0] == 'agg' else (2, repr(k)))]
+def _agg_order(k):
+    # derived Ord: variant index first, then the fields in order (tuples: fields in order)
+    def one(x): return (0, x) if isinstance(x, bytes) else (1, x[1]) if isinstance(x, tuple) and x[0] in ('int', 'bool') else _agg_order(x) if isinstance(x, tuple) and x[0] == 'agg' else (2, repr(x))
+    return (3, k[2], tuple(one(f) for f in k[3]))
 @model_re(r'^BTreeMap::new$')
 def _(M, a, c): return Native('BTreeMap', m={})
 @model_re(r'^BTreeMap::len$')
@@ -1156,10 +1161,10 @@ def _(M, a, c):
 def _callf(M, f, args):
     from . import itermodels
     return itermodels.callf(M, f, args)
-@model_re(r'^std::result::Result::(map_err|map|and_then|or_else|unwrap_or_else|unwrap_or|unwrap_or_default|ok|err|is_ok|is_err|expect|expect_err|unwrap_err|ok_or|map_or|map_or_else|as_ref|as_mut|iter)$')
+@model_re(r'^std::result::Result::(map_err|map|and_then|or_else|unwrap_or_else|unwrap_or|unwrap_or_default|ok|err|is_ok|is_err|expect|expect_err|unwrap_err|ok_or|map_or|map_or_else|as_ref|as_mut|iter|and|or|is_ok_and|is_err_and)$')
 def _(M, a, c):
     fn = norm_name(c).split('::')[-1]; r = a[0]
-    if fn in ('is_ok', 'is_err', 'as_ref', 'as_mut'): r = V(r)
+    if fn in ('is_ok', 'is_err', 'as_ref', 'as_mut', 'iter'): r = V(r)
     isok = r.variant == 0; x = r.fields[0]
     if fn == 'map_err': return r if isok else err(_callf(M, a[1], [x]))
     if fn == 'map': return ok(_callf(M, a[1], [x])) if isok else r
@@ -1180,8 +1185,15 @@ def _(M, a, c):
     if fn in ('as_ref', 'as_mut'): return Agg('Result', r.variant, [Ref(r.fields, 0)])
     if fn == 'map_or': return _callf(M, a[2], [x]) if isok else a[1]
     if fn == 'map_or_else': return _callf(M, a[2], [x]) if isok else _callf(M, a[1], [x])
+    if fn == 'and': return a[1] if isok else r
+    if fn == 'or': return r if isok else a[1]
+    if fn == 'is_ok_and': return isok and M.branch(_callf(M, a[1], [x]))
+    if fn == 'is_err_and': return (not isok) and M.branch(_callf(M, a[1], [x]))
+    if fn == 'iter':
+        from . import itermodels as _im
+        return _im.from_list([Ref(V(a[0]).fields, 0)] if V(a[0]).variant == 0 else [])
     raise Unsupported("Result::" + fn)
-@model_re(r'^Option::(and_then|or|ok_or|ok_or_else|map_or|map_or_else|filter|take|replace|is_some_and|is_none_or|unwrap_unchecked|as_mut|as_deref|insert|get_or_insert_with|xor|zip|iter)$')
+@model_re(r'^Option::(and_then|and|or|ok_or|ok_or_else|map_or|map_or_else|filter|take|replace|is_some_and|is_none_or|unwrap_unchecked|as_mut|as_deref|insert|get_or_insert_with|xor|zip|iter)$')
 def _(M, a, c):
     fn = norm_name(c).split('::')[-1]; o = a[0]
     if fn in ('take', 'replace', 'as_mut', 'insert', 'get_or_insert_with', 'as_deref'): o = V(o)
@@ -1207,6 +1219,7 @@ def _(M, a, c):
     if fn == 'is_none_or': return (not has) or M.branch(_callf(M, a[1], [x]))
     if fn == 'as_mut': return some(Ref(o.fields, 0)) if has else NONE()
     if fn == 'unwrap_unchecked': return x
+    if fn == 'and': return a[1] if has else NONE()
     if fn == 'xor':
         y = a[1]; hy = y.variant == 1
         return o if (has and not hy) else (y if (hy and not has) else NONE())
